@@ -247,3 +247,22 @@ def _():
 def _():
     g = M("py_ecc.bls.g2_primitives")
     return g.curve_order == R_BLS, "subgroup_check multiplies by the pinned r"
+
+
+@evaluator("bls.no-y0-points")
+def _():
+    m = M("py_ecc.optimized_bls12_381.optimized_curve")
+    q = P_BLS
+    ok = q % 3 == 1 and pow(-4 % q, (q - 1) // 3, q) != 1          # -4 is a non-cube in F_q: no (x, 0) on E
+    # -4(1+i) is a non-cube in F_q2 (no (x, 0) on the twist); 1+i is a non-square, so no twist point has x = 0
+    F2 = m.FQ2
+    nb2 = F2([-4 % q, -4 % q])
+    ok = ok and (q * q - 1) % 3 == 0 and nb2 ** ((q * q - 1) // 3) != F2.one()
+    ok = ok and m.b2 ** ((q * q - 1) // 2) != F2.one()
+    return ok, "-4 non-cube mod q; -4(1+i) non-cube in F_q2; b2 = 4(1+i) non-square in F_q2"
+
+
+@evaluator("bls.q-shape")
+def _():
+    q = P_BLS
+    return q % 4 == 3 and q % 2 == 1 and q < 2 ** 381 and q > 2 ** 380 and (q * q) % 16 == 9, "q = 3 mod 4, odd, 380 < log2 q < 381, q^2 = 9 mod 16"
